@@ -52,6 +52,7 @@ const (
 	typeDefault = "peer"  // service type resolved by node/app's default route (first working service)
 	typeFunc    = "peerx" // service type resolved by a route function registered in route.TheRouteService
 	noMethodErr = int64(-1)
+	span        = maxReqID + 1 // key = incarnation*span + request id
 )
 
 // a message the proto serializer rejects ("msg must be proto.Message")
@@ -83,11 +84,16 @@ type barrier struct{ ack chan *result }
 
 type result struct {
 	evs    []any
-	pend   []int64
-	armed  bool
+	evInc  []int   // incarnation each event belongs to
+	pend   []int64 // keys (incarnation, id) of every pending request of every incarnation
+	arms   []bool  // timer flag of every incarnation
+	lens   []int   // number of pending requests of every incarnation
 	got    int64
 	onLoop bool
 }
+
+// crashMsg is a user message whose handler panics: the supervisor restarts the actor
+type crashMsg struct{}
 
 type peerCmd struct {
 	what string // "resp" | "resp-notify" | "resp-nosender" | "sync"
@@ -99,9 +105,12 @@ type peerCmd struct {
 
 // ---- the requesting service
 
+// One hsvc per incarnation of the actor: the producer builds a fresh one (fresh
+// service.Service: empty Handlers, nextId 0, no timer) every time the supervisor restarts it.
 type hsvc struct {
 	*ns.NodeService
-	w *world
+	w   *world
+	idx int // incarnation number
 }
 
 func (h *hsvc) Receive(ctx actor.Context) {
@@ -109,7 +118,16 @@ func (h *hsvc) Receive(ctx actor.Context) {
 	switch m := ctx.Message().(type) {
 	case *actor.Started:
 		h.NodeService.Receive(ctx)
-		w.loopGid = gid()
+		if h.idx == 0 {
+			w.loopGid = gid()
+		} else {
+			w.checkLoop() // a later incarnation must run on the same goroutine
+		}
+	case *crashMsg:
+		w.checkLoop()
+		w.acting = h
+		w.rec("ECrash")
+		panic("c01: a handler of the requesting service panics")
 	case *opMsg:
 		w.checkLoop()
 		w.handle(m)
@@ -454,10 +472,14 @@ type world struct {
 	peerName string
 	clock   int64
 	via     int64 // how requests reach the peer (op Via)
+	crashes int64 // restarts so far = number of the live incarnation (driver side)
 
 	// touched only on the service goroutine
+	incs    []*hsvc // every incarnation so far; svc is the last one
+	acting  *hsvc   // the incarnation whose code is running (set by Do, scans and callbacks)
 	loopGid int64
 	evs     []any
+	evInc   []int
 	onLoop  bool
 	got     int64
 	nextTag int64
@@ -504,7 +526,8 @@ func newWorld() *world {
 		Services: []string{typeDefault + "." + w.peerName, typeFunc + "." + w.peerName},
 	}})
 	sprops, _ := as.NewServicePropsWithNewScheDisp(func() actor.Actor {
-		h := &hsvc{NodeService: ns.NewService(), w: w}
+		h := &hsvc{NodeService: ns.NewService(), w: w, idx: len(w.incs)}
+		w.incs = append(w.incs, h)
 		w.svc = h
 		return h
 	}, "")
@@ -532,19 +555,19 @@ func (w *world) senderMiddleware(next actor.SenderFunc) actor.SenderFunc {
 			w.checkLoop()
 			tag := bodyTag(req)
 			id := int64(req.ReqId)
-			if id != 0 && !w.issued[tag] && w.isPending(id) {
-				// the wait is in the table while the request is being sent
+			if id != 0 && !w.issued[tag] && w.acting.isPending(id) {
+				// the wait is in the table (of the incarnation that sends) while the request is being sent
 				w.issued[tag] = true
-				w.rec(hx.C("EIssue", tag, id, w.clock))
+				w.rec(hx.C("EIssue", tag, w.acting.key(id), w.clock))
 			}
-			w.rec(hx.C("ESent", id, tag))
+			w.rec(hx.C("ESent", w.acting.key(id), tag))
 		}
 		next(c, target, env)
 	}
 }
 
-func (w *world) isPending(id int64) bool {
-	for _, p := range w.svc.VerifPendingIds() {
+func (h *hsvc) isPending(id int64) bool {
+	for _, p := range h.VerifPendingIds() {
 		if int64(p) == id {
 			return true
 		}
@@ -552,7 +575,34 @@ func (w *world) isPending(id int64) bool {
 	return false
 }
 
-func (w *world) rec(e any) { w.evs = append(w.evs, e) }
+// key names a request id of an incarnation: incarnation * (MaxReqId+1) + id; 0 stays 0 (notification)
+func (h *hsvc) key(id int64) int64 {
+	if id == 0 {
+		return 0
+	}
+	return int64(h.idx)*span + id
+}
+
+// respKey: the key a response with wire id `id` addresses when incarnation cur processes it;
+// ids no request can carry (outside 1..MaxReqId) get an injective negative code
+func respKey(cur, id int64) int64 {
+	switch {
+	case id >= 1 && id <= maxReqID:
+		return cur*span + id
+	case id <= 0:
+		return 2*id - 1
+	}
+	return -2 * id
+}
+
+func (w *world) rec(e any) {
+	w.evs = append(w.evs, e)
+	idx := 0
+	if w.acting != nil {
+		idx = w.acting.idx
+	}
+	w.evInc = append(w.evInc, idx)
+}
 
 func (w *world) checkLoop() {
 	if gid() != w.loopGid {
@@ -561,12 +611,16 @@ func (w *world) checkLoop() {
 }
 
 func (w *world) collect() *result {
-	w.svc.VerifDetachTimer()
-	r := &result{evs: w.evs, armed: w.svc.VerifTimerArmed(), got: w.got, onLoop: w.onLoop}
-	for _, id := range w.svc.VerifPendingIds() {
-		r.pend = append(r.pend, int64(id))
+	r := &result{evs: w.evs, evInc: w.evInc, got: w.got, onLoop: w.onLoop}
+	for _, h := range w.incs {
+		h.VerifDetachTimer()
+		r.arms = append(r.arms, h.VerifTimerArmed())
+		r.lens = append(r.lens, h.VerifPendingLen())
+		for _, id := range h.VerifPendingIds() {
+			r.pend = append(r.pend, h.key(int64(id)))
+		}
 	}
-	w.evs, w.got, w.onLoop = nil, 0, true
+	w.evs, w.evInc, w.got, w.onLoop = nil, nil, 0, true
 	return r
 }
 
@@ -619,12 +673,15 @@ func classify(err error, msg interface{}) any {
 	return c
 }
 
-func (w *world) callback(tag int64, prog []hx.T) func(error, interface{}) {
+// the callback of a request issued by incarnation h: what it does, it does through h (the
+// closure captured its service, as user code does)
+func (w *world) callback(h *hsvc, tag int64, prog []hx.T) func(error, interface{}) {
 	return func(err error, msg interface{}) {
 		w.checkLoop()
+		w.acting = h
 		w.rec(hx.C("ECb", tag, classify(err, msg)))
 		for _, a := range prog {
-			w.execAct(a)
+			w.execAct(h, a)
 		}
 	}
 }
@@ -644,37 +701,37 @@ func (w *world) target() map[string]interface{} {
 	return map[string]interface{}{"target": w.peerName}
 }
 
-func (w *world) sendRequest(msg interface{}, cb func(error, interface{})) {
+func (w *world) sendRequest(sv *hsvc, msg interface{}, cb func(error, interface{})) {
 	if h, ok := msg.(*messages.TestHello); ok && w.via >= 4 {
 		if w.via == 4 {
-			app.QuerySession(w.svc.NodeService, w.peerName, uint32(h.I), cb)
+			app.QuerySession(sv.NodeService, w.peerName, uint32(h.I), cb)
 		} else {
-			app.Kick(w.svc.NodeService, w.peerName, uint32(h.I), cb)
+			app.Kick(sv.NodeService, w.peerName, uint32(h.I), cb)
 		}
 		return
 	}
 	switch w.via {
 	case 1:
-		app.Request(w.svc.NodeService, typeDefault+".remote.Park", nil, msg, cb)
+		app.Request(sv.NodeService, typeDefault+".remote.Park", nil, msg, cb)
 	case 2:
-		app.Request(w.svc.NodeService, typeFunc+".remote.NoSuch", w.target(), msg, cb)
+		app.Request(sv.NodeService, typeFunc+".remote.NoSuch", w.target(), msg, cb)
 	case 3:
-		app.Request(w.svc.NodeService, typeFunc+".remote.Note", w.target(), msg, cb)
+		app.Request(sv.NodeService, typeFunc+".remote.Note", w.target(), msg, cb)
 	default:
-		w.svc.Request(w.peerPID, msg, cb)
+		sv.Request(w.peerPID, msg, cb)
 	}
 }
 
-func (w *world) sendNotify(msg interface{}) {
+func (w *world) sendNotify(sv *hsvc, msg interface{}) {
 	switch w.via {
 	case 1:
-		app.Notify(w.svc.NodeService, typeDefault+".remote.Note", nil, msg)
+		app.Notify(sv.NodeService, typeDefault+".remote.Note", nil, msg)
 	case 2:
-		app.Notify(w.svc.NodeService, typeFunc+".remote.Park", w.target(), msg)
+		app.Notify(sv.NodeService, typeFunc+".remote.Park", w.target(), msg)
 	case 3:
-		app.Notify(w.svc.NodeService, typeFunc+".remote.NoSuch", w.target(), msg)
+		app.Notify(sv.NodeService, typeFunc+".remote.NoSuch", w.target(), msg)
 	default:
-		w.svc.Notify(w.peerPID, msg)
+		sv.Notify(w.peerPID, msg)
 	}
 }
 
@@ -692,7 +749,7 @@ func (w *world) noTarget() (string, interface{}) {
 	}
 }
 
-func (w *world) execAct(a hx.T) {
+func (w *world) execAct(sv *hsvc, a hx.T) {
 	switch a.Name {
 	case "AReq", "AUnser":
 		tag := w.nextTag
@@ -701,64 +758,79 @@ func (w *world) execAct(a hx.T) {
 		if a.Name == "AUnser" {
 			msg = &unserialisable{X: int(tag)}
 		}
-		w.sendRequest(msg, w.callback(tag, hx.Terms(a.Args[0])))
+		w.sendRequest(sv, msg, w.callback(sv, tag, hx.Terms(a.Args[0])))
 		if !w.issued[tag] {
 			// nothing was sent while the wait was in the table: look for it now
-			id := int64(w.svc.VerifNextId())
-			if w.isPending(id) {
+			id := int64(sv.VerifNextId())
+			if sv.isPending(id) {
 				w.issued[tag] = true
-				w.rec(hx.C("EIssue", tag, id, w.clock))
+				w.rec(hx.C("EIssue", tag, sv.key(id), w.clock))
 			}
 		}
 	case "ANotify":
-		w.sendNotify(&messages.TestHello{I: -1})
+		w.sendNotify(sv, &messages.TestHello{I: -1})
 	case "ANoRoute":
 		tag := w.nextTag
 		w.nextTag++
 		w.rec(hx.C("ENoRoute", tag))
 		switch w.via {
 		case 4:
-			app.QuerySession(w.svc.NodeService, noSuchParam, uint32(tag), w.callback(tag, hx.Terms(a.Args[0])))
+			app.QuerySession(sv.NodeService, noSuchParam, uint32(tag), w.callback(sv, tag, hx.Terms(a.Args[0])))
 		case 5:
-			app.Kick(w.svc.NodeService, noSuchParam, uint32(tag), w.callback(tag, hx.Terms(a.Args[0])))
+			app.Kick(sv.NodeService, noSuchParam, uint32(tag), w.callback(sv, tag, hx.Terms(a.Args[0])))
 		default:
 			r, p := w.noTarget()
-			app.Request(w.svc.NodeService, r, p, &messages.TestHello{I: int32(tag)},
-				w.callback(tag, hx.Terms(a.Args[0])))
+			app.Request(sv.NodeService, r, p, &messages.TestHello{I: int32(tag)},
+				w.callback(sv, tag, hx.Terms(a.Args[0])))
 		}
 	case "ANotifyNR":
 		r, p := w.noTarget()
-		app.Notify(w.svc.NodeService, r, p, &messages.TestHello{I: -1})
+		app.Notify(sv.NodeService, r, p, &messages.TestHello{I: -1})
 	default:
 		panic("c01: unknown act " + a.Name)
 	}
 }
 
-// handle runs on the service goroutine
+// handle runs on the service goroutine (in the Receive of the live incarnation)
 func (w *world) handle(m *opMsg) {
 	switch m.what {
 	case "begin-real":
-		w.svc.VerifReattachTimer()
-		m.ack <- &result{armed: w.svc.VerifTimerArmed(), pend: make([]int64, w.svc.VerifPendingLen())}
+		r := &result{}
+		for _, h := range w.incs {
+			h.VerifReattachTimer()
+			r.arms = append(r.arms, h.VerifTimerArmed())
+			r.lens = append(r.lens, h.VerifPendingLen())
+		}
+		m.ack <- r
 		return
 	case "probe":
-		m.ack <- &result{armed: w.svc.VerifTimerArmed()}
+		r := &result{}
+		for _, h := range w.incs {
+			r.arms = append(r.arms, h.VerifTimerArmed())
+		}
+		m.ack <- r
 		return
 	case "collect":
 		m.ack <- w.collect()
 		return
 	}
 	o := m.op
+	w.acting = w.svc
 	switch o.Name {
 	case "Do":
 		w.rec("EDo")
-		w.execAct(o.Term(0))
+		w.execAct(w.svc, o.Term(0))
 	case "Tick":
-		if w.svc.VerifTimerArmed() {
-			w.rec(hx.C("ETick", w.clock))
-			w.svc.VerifCheckExpired()
-		} else {
-			w.rec("EIdle")
+		// the scan of every incarnation whose timer is armed, oldest first: a dead
+		// incarnation's timer lives on in the shared run service until its table is empty
+		for _, h := range append([]*hsvc{}, w.incs...) {
+			w.acting = h
+			if h.VerifTimerArmed() {
+				w.rec(hx.C("ETick", w.clock))
+				h.VerifCheckExpired()
+			} else {
+				w.rec("EIdle")
+			}
 		}
 	case "Advance":
 		w.rec("EIdle")
@@ -775,7 +847,11 @@ func (w *world) handle(m *opMsg) {
 		}
 	case "SetNext":
 		w.rec("EIdle")
-		if v := o.Int(0); v >= 0 && v <= int64(as.MaxReqId) && w.svc.VerifPendingLen() == 0 {
+		total := 0
+		for _, h := range w.incs {
+			total += h.VerifPendingLen()
+		}
+		if v := o.Int(0); v >= 0 && v <= int64(as.MaxReqId) && total == 0 {
 			w.svc.VerifSetNextId(int32(v))
 		}
 	default:
@@ -816,29 +892,52 @@ func (w *world) peerSeen() ([][2]int64, bool) {
 	}
 }
 
-// tickReal lets the service's real 1s timer run the scan (instead of VerifCheckExpired)
-// until it disarms itself, or for 3.5 s, which is at least two firings.
+// crash makes a handler of the requesting service panic and waits until the supervisor has
+// restarted the actor (the next message is processed by the new incarnation).
+func (w *world) crash() *result {
+	before := w.crashes
+	system().Root.Send(w.svcPID, &crashMsg{})
+	r := w.toSvc("collect", hx.T{})
+	if r == nil {
+		return nil
+	}
+	w.crashes++
+	if len(r.arms) != int(before)+2 {
+		// no new incarnation was built (or more than one): an impossible observation
+		r.evs = append(r.evs, "EDo")
+	}
+	return r
+}
+
+// tickReal lets the real 1s timers run the scans (instead of VerifCheckExpired) until every
+// incarnation's timer has disarmed itself, or for 3.5 s, which is at least two firings each.
+// The model's TickReal is two passes over all incarnations; the markers are reconstructed
+// per incarnation from its state before (armed? anything pending?) and the callbacks are
+// attributed to the incarnation that issued the request.
 func (w *world) tickReal() *result {
 	b := w.toSvc("begin-real", hx.T{})
 	if b == nil {
 		return nil
 	}
-	if !b.armed {
-		r := w.toSvc("collect", hx.T{})
-		if r != nil {
-			r.evs = append([]any{"EIdle", "EIdle"}, r.evs...)
+	anyArmed := func(arms []bool) bool {
+		for _, a := range arms {
+			if a {
+				return true
+			}
 		}
-		return r
+		return false
 	}
-	deadline := time.Now().Add(3500 * time.Millisecond)
-	for time.Now().Before(deadline) {
-		time.Sleep(20 * time.Millisecond)
-		p := w.toSvc("probe", hx.T{})
-		if p == nil {
-			return nil
-		}
-		if !p.armed {
-			break
+	if anyArmed(b.arms) {
+		deadline := time.Now().Add(3500 * time.Millisecond)
+		for time.Now().Before(deadline) {
+			time.Sleep(20 * time.Millisecond)
+			p := w.toSvc("probe", hx.T{})
+			if p == nil {
+				return nil
+			}
+			if !anyArmed(p.arms) {
+				break
+			}
 		}
 	}
 	r := w.toSvc("collect", hx.T{})
@@ -846,11 +945,24 @@ func (w *world) tickReal() *result {
 		return nil
 	}
 	tick := hx.C("ETick", w.clock)
-	if len(b.pend) == 0 {
-		r.evs = append([]any{tick, "EIdle"}, r.evs...)
-	} else {
-		r.evs = append(append([]any{tick}, r.evs...), tick)
+	var first, second []any
+	for j, armed := range b.arms {
+		switch {
+		case !armed:
+			first, second = append(first, "EIdle"), append(second, "EIdle")
+		case b.lens[j] == 0:
+			first, second = append(first, tick), append(second, "EIdle")
+		default:
+			first = append(first, tick)
+			for i, e := range r.evs {
+				if r.evInc[i] == j {
+					first = append(first, e)
+				}
+			}
+			second = append(second, tick)
+		}
 	}
+	r.evs = append(first, second...)
 	return r
 }
 
@@ -864,7 +976,7 @@ func Exec(ops []hx.T) (obs []any, nontrivial bool) {
 		case "Resp":
 			r = w.toPeer("resp", o.Int(0), o.Term(1))
 			if r != nil {
-				r.evs = append([]any{hx.C("EResp", o.Int(0), o.Args[1])}, r.evs...)
+				r.evs = append([]any{hx.C("EResp", respKey(w.crashes, o.Int(0)), o.Args[1])}, r.evs...)
 			}
 		case "RespNotify":
 			r = w.toPeer("resp-notify", 0, hx.T{})
@@ -889,6 +1001,8 @@ func Exec(ops []hx.T) (obs []any, nontrivial bool) {
 			}
 		case "TickReal":
 			r = w.tickReal()
+		case "Crash":
+			r = w.crash()
 		default:
 			r = w.toSvc("op", o)
 		}
@@ -910,7 +1024,11 @@ func Exec(ops []hx.T) (obs []any, nontrivial bool) {
 				}
 			}
 		}
-		obs = append(obs, hx.C("Obs", r.evs, hx.Norm(r.pend), r.armed, r.got, peer, r.onLoop))
+		arms := []any{}
+		for _, a := range r.arms {
+			arms = append(arms, a)
+		}
+		obs = append(obs, hx.C("Obs", r.evs, hx.Norm(r.pend), arms, r.got, peer, r.onLoop))
 	}
 	return
 }
